@@ -16,7 +16,8 @@ FUNCS = ("cutplace.validio.Reader.rows", "cutplace.validio.Reader.__init__", "cu
          "cutplace.checks.DistinctCountCheck.check_at_end")
 CID_TEXT = ("d,format,delimited\nf,k,,,,Choice,\"a,b\"\nf,v,,X,...1,Text,\n"
             "c,uniq,IsUnique,k\nc,dist,DistinctCount,k <= 1\n")
-OPS = ("rows-yield", "rows-continue", "rows-raise", "validate", "writer", "reader-late", "reader-unclosed-then-close")
+OPS = ("rows-yield", "rows-continue", "rows-raise", "validate", "writer", "reader-late", "reader-unclosed-then-close",
+       "iterator-early", "reader-early-unread")
 
 
 def inject(cid, has_a, has_b, la, lb, ca, cb):
@@ -84,6 +85,28 @@ def operate(cid, op, rows, dirty=None, limit=None):
             dirty()  # another run happened between creating the reader and consuming it
         for r in reader.rows():
             note(r)
+        try:
+            reader.close()
+        except errors.CheckError as e:
+            close_raised = err(e)
+    elif op == "iterator-early":
+        # the iterator is obtained, then another run happens, then the iterator is consumed
+        reader = validio.Reader(cid, rows, on_error="yield", validate_until=limit)
+        it = reader.rows()
+        if dirty:
+            dirty()
+        for r in it:
+            note(r)
+        try:
+            reader.close()
+        except errors.CheckError as e:
+            close_raised = err(e)
+    elif op == "reader-early-unread":
+        # a reader is created, another run happens, the reader is closed without having read anything: it judges
+        # an empty data set
+        reader = validio.Reader(cid, rows, on_error="yield", validate_until=limit)
+        if dirty:
+            dirty()
         try:
             reader.close()
         except errors.CheckError as e:
